@@ -301,5 +301,9 @@ def check(repo, rep, tier):
     rc.r_priority(m, rep, 'R11.5')
     rc.r_ids_not_ordered(m, rep, 'R11.5')
     rc.r_search_loop(m, rep, 'R11.4')
+    from ..lints import r_module_state
+    r_module_state(repo, rep, 'R11.5', ['depccg/grammar/en.py', 'depccg/grammar/ja.py'],
+                   'the rule functions are called back for every sentence: what a call stores at module level is read by the calls made for later sentences, '
+                   'so a sentence parsed after others is not parsed as it is alone')
     rc.r_locals_automatic(m, rep, 'R11.5')    # no working object of parse_sentence survives from one sentence to the next
     rep.floor('push sites (search loop analysed)', len(m.sites), 5)
